@@ -8,6 +8,7 @@ import Rare.Proofs.C18Zone
 import Rare.Proofs.C18Cache
 import Rare.Proofs.C18Hist
 import Rare.Proofs.C18Name
+import Rare.Proofs.C18Offset
 import Rare.Gen.C18
 /-!
 # C18 – Time helpers agree with the calendar and round-trip
@@ -733,6 +734,86 @@ theorem abbr_overlap_counterexample :
         = some 1414277999
     ∧ lookupNameIn moscow2014 moscowZones (asc "MSK") (moscow2014.wall 1414274399) = some 10800
     ∧ (moscow2014.lookup 1414274399).off = 14400 := by
+  decide +kernel
+
+/-! ## Numeric abbreviations are read by VALUE, not by digit count (round 4d) -/
+
+/-- Go's `leadingInt` on a run of digits (followed by the end or a non-digit): the run is read in full
+iff its VALUE is at most 2^63 – the tests `x > 1<<63/10` before and `x > 1<<63` after each
+multiplication are both implied by the final value – so zero-padded runs of ANY length are read, and
+a 19-digit run above 2^63 is not.  (The model of rounds 2–4c said "more than 19 digits overflow".) -/
+theorem leading_int_by_value (ds : Bytes) (hd : ds.all isDigitB = true) (tail : Bytes) (ht : NoDigitHead tail) :
+    leadingInt (ds ++ tail) 0 = if digitsVal ds 0 ≤ 9223372036854775808 then some (digitsVal ds 0, tail) else none :=
+  leadingInt_exact ds hd 0 tail ht (by omega)
+
+/-- `parseTimeZone` on `GMT±digits` and on `±digits` (the numeric abbreviations of the tz database), for
+EVERY run of digits: the digits belong to the abbreviation iff there is one and the value is ≤ 23.
+Otherwise `GMT` alone is the abbreviation (3 bytes; the rest then fails to match the layout) and a bare
+sign is no abbreviation at all. -/
+theorem signed_offset_by_value (s : UInt8) (hs : s = 43 ∨ s = 45) (ds : Bytes) (hd : ds.all isDigitB = true)
+    (tail : Bytes) (ht : NoDigitHead tail) :
+    parseSignedOffset (s :: (ds ++ tail)) = (if ds ≠ [] ∧ digitsVal ds 0 ≤ 23 then 1 + ds.length else 0)
+    ∧ parseTimeZone (asc "GMT" ++ s :: (ds ++ tail)) = some (3 + if ds ≠ [] ∧ digitsVal ds 0 ≤ 23 then 1 + ds.length else 0)
+    ∧ (2 ≤ ds.length + tail.length →
+        parseTimeZone (s :: (ds ++ tail)) = if ds ≠ [] ∧ digitsVal ds 0 ≤ 23 then some (1 + ds.length) else none) := by
+  have hp := parseSignedOffset_exact s hs ds hd tail ht
+  have e1 : asc "ChST" = [67, 104, 83, 84] := by decide
+  have e2 : asc "MeST" = [77, 101, 83, 84] := by decide
+  have e3 : asc "GMT" = [71, 77, 84] := by decide
+  refine ⟨hp, ?_, ?_⟩
+  · unfold parseTimeZone
+    simp [e1, e2, e3, hp]
+  · intro hl
+    have hlen : ¬ ((s :: (ds ++ tail)).length < 3) := by simp only [List.length_cons, List.length_append]; omega
+    have hne : ∀ (x : UInt8) (r : Bytes), x ≠ s → List.take 4 (s :: (ds ++ tail)) ≠ x :: r := by
+      intro x r hx h; simp only [List.take_succ_cons] at h; exact hx (List.cons.inj h).1.symm
+    have hn1 : List.take 4 (s :: (ds ++ tail)) ≠ asc "ChST" := by
+      rw [e1]; exact hne _ _ (by rcases hs with e | e <;> subst e <;> decide)
+    have hn2 : List.take 4 (s :: (ds ++ tail)) ≠ asc "MeST" := by
+      rw [e2]; exact hne _ _ (by rcases hs with e | e <;> subst e <;> decide)
+    have hn3 : List.take 3 (s :: (ds ++ tail)) ≠ asc "GMT" := by
+      rw [e3]; intro h; simp only [List.take_succ_cons] at h
+      have := (List.cons.inj h).1
+      rcases hs with e | e <;> subst e <;> exact absurd this (by decide)
+    have hhead : (s :: (ds ++ tail)).head? = some 43 ∨ (s :: (ds ++ tail)).head? = some 45 := by
+      rcases hs with e | e <;> subst e <;> simp
+    unfold parseTimeZone
+    simp only [hlen, if_false, hn1, hn2, false_or, hn3, hhead, if_true, hp]
+    by_cases hc : ds ≠ [] ∧ digitsVal ds 0 ≤ 23
+    · have : 1 + ds.length > 0 := by omega
+      simp only [if_pos hc, this, if_true]
+    · simp only [if_neg hc]
+      simp
+
+/-- Zero padding of any length in front of an hour ≤ 23 stays inside the abbreviation. -/
+theorem gmt_offset_padded (s : UInt8) (hs : s = 43 ∨ s = 45) (k : Nat) (ds : Bytes) (hd : ds.all isDigitB = true)
+    (hne : ds ≠ []) (hv : digitsVal ds 0 ≤ 23) (tail : Bytes) (ht : NoDigitHead tail) :
+    parseTimeZone (asc "GMT" ++ s :: (List.replicate k 48 ++ ds ++ tail)) = some (4 + k + ds.length) := by
+  have hall : (List.replicate k 48 ++ ds).all isDigitB = true := by
+    rw [List.all_append, zeros_all k, hd]; rfl
+  have h := (signed_offset_by_value s hs (List.replicate k 48 ++ ds) hall tail ht).2.1
+  have hne' : List.replicate k 48 ++ ds ≠ [] := by
+    intro e; exact hne (List.append_eq_nil_iff.mp e).2
+  rw [h, digitsVal_zeros]
+  simp only [hne', hv, ne_eq, not_false_eq_true, and_self, if_true, List.length_append, List.length_replicate]
+  congr 1; omega
+
+/-- The witness the C08 builder reported: `{time "Fri, 13 Feb 2009 20:01:30 GMT+0000000000000000000007" RFC1123}`.
+Go reads the 22 digits as the hour 7 of a 26-byte abbreviation, no location knows that name, so the zone is
+fabricated and the wall clock read as UTC: 1234555290 (so does the real code: corpus r4d).  20 digits
+whose value passes 2^63 (`GMT+09223372036854775809`) and the hour 24 are refused, whatever the padding;
+2^63 itself is still read by `leadingInt`. -/
+theorem signed_offset_padded_example :
+    (parseLayout (asc "Mon, 02 Jan 2006 15:04:05 MST") (asc "Fri, 13 Feb 2009 20:01:30 GMT+0000000000000000000007")).toOption.map
+        (fun p => (p.zone, instantInN ⟨(0, asc "UTC"), []⟩ [] p))
+      = some (ZoneSrc.name (asc "GMT+0000000000000000000007"), 1234555290)
+    ∧ (parseLayout (asc "Mon, 02 Jan 2006 15:04:05 MST") (asc "Fri, 13 Feb 2009 20:01:30 -0000000000000000000023")).toOption.map
+        (fun p => (p.zone, instantInN ⟨(0, asc "UTC"), []⟩ [] p))
+      = some (ZoneSrc.name (asc "-0000000000000000000023"), 1234555290)
+    ∧ (parseLayout (asc "Mon, 02 Jan 2006 15:04:05 MST") (asc "Fri, 13 Feb 2009 20:01:30 GMT+0000000000000000000024")).toOption = none
+    ∧ (parseLayout (asc "Mon, 02 Jan 2006 15:04:05 MST") (asc "Fri, 13 Feb 2009 20:01:30 GMT+09223372036854775809")).toOption = none
+    ∧ leadingInt (asc "0009223372036854775808h") 0 = some (9223372036854775808, asc "h")
+    ∧ leadingInt (asc "9223372036854775809h") 0 = none := by
   decide +kernel
 
 /-! ## Durations -/
